@@ -27,7 +27,7 @@ ASSUMPTIONS = [
     "margins in the documented boxes; rectangles with end points of magnitude 1e-3..5",
 ]
 REQUIRED_COUNTERS = ["rectangles", "fast_vs_general", "oracle_comparisons", "additivity_checks", "margin_checks",
-                     "subset_checks", "inverse_roundtrips", "instance_interleavings", "rectangles_starting_at_0", "signed_zero_end_points", "copula_changed_on_a_used_model", "implied_density_integrals", "integer_end_points", "index_families_in_any_order"]
+                     "subset_checks", "inverse_roundtrips", "instance_interleavings", "rectangles_starting_at_0", "signed_zero_end_points", "copula_changed_on_a_used_model", "implied_density_integrals", "integer_end_points", "index_families_in_any_order", "rectangles_with_several_end_points_at_0"]
 MIN_NONTRIVIAL = {"quick": 100, "thorough": 1500}
 THOROUGH_ROUNDS = 10      # the thorough tier runs the generators this many times (different seeds)
 
@@ -199,6 +199,29 @@ def run_case(case, R):
                                 f"I-margin of the copula at the tail integrals = {ws!r}", wit)
             except Exception as exc:  # noqa: BLE001
                 R.violation(f"subset-mass-raises-{d}d", f"{label}: mass({ai}, {bi}, indices={idx}) raises {type(exc).__name__}: {exc}", wit)
+    # rectangles with end points exactly at 0 on several coordinates (intervals (0, c] and (-c, 0]) and one coordinate away from 0: whichever
+    # piece owns an axis, the mass is a number >= 0 and the fast path agrees with the general formula
+    for _ in range(12):
+        kk = [str(rng.choice(["from0", "to0", "pos", "neg"])) for _ in range(d)]
+        kk[int(rng.integers(d))] = str(rng.choice(["pos", "neg"]))
+        if not any(v in ("from0", "to0") for v in kk):
+            kk[(kk.index("pos") if "pos" in kk else kk.index("neg")) - 1] = "to0"
+        a, b = [], []
+        for v in kk:
+            c1 = W.r6(W._logu(rng, 1e-2, 1.0))
+            lo_, hi_ = {"from0": (0.0, c1), "to0": (-c1, 0.0), "pos": (c1, W.r6(c1 * 2.5)), "neg": (-W.r6(c1 * 2.5), -c1)}[v]
+            a.append(lo_)
+            b.append(hi_)
+        try:
+            with np.errstate(all="ignore"):
+                gz, gn = float(m1.mass(a, b)), float(m1._mass_nd(a, b))
+        except Exception as exc:  # noqa: BLE001
+            R.violation(f"mass-raises-{d}d", f"{label}: mass({a}, {b}) raises {type(exc).__name__}: {exc}", wit)
+            break
+        R.hit("rectangles_with_several_end_points_at_0")
+        if math.isnan(gz) or gz < -floor - 1e-12 or (math.isfinite(gz) and math.isfinite(gn) and not (abs(gz - gn) <= 1e-9 * (abs(gn) + floor) + 1e-12)) or (math.isfinite(gz) != math.isfinite(gn)):
+            R.violation(f"mass-negative-or-undefined-{d}d-end-points-at-0", f"{label}: mass({a}, {b}) = {gz!r} (general formula {gn!r}) for intervals of the kinds {kk}", wit)
+            break
     # index families in any order (the k-th interval belongs to the margin indices[k]), the full family included
     for a, b, got in [q for q in log if all(not (x < 0 < y) for x, y in zip(q[0], q[1]))][:6]:
         perm = [int(v) for v in rng.permutation(d)]
